@@ -101,11 +101,25 @@ WOverlong(d, body) ==
   /\ ops' = Append(ops, <<"O", d, body[1], Len(body) - RxSize>>)
   /\ UNCHANGED <<vars, msgs, qid, curid, pend, kind, afterOver, lossy, delivered, nNoise>>
 
+\* A well-formed frame from elsewhere on the wire for a DLCI nobody has claimed (or for the
+\* echo DLCI): it is dropped (echoed) and must leave no trace in the receiver - in particular
+\* the frames that follow it are received as if it had never been there.
+WForeign(d, body) ==
+  /\ BetweenFrames /\ nOver < MaxOver
+  /\ Len(body) < RxSize /\ {body[i] : i \in 1..Len(body)} \cap {FLAG, ESC} = {}
+  /\ d \in 0..255 /\ d \notin {FLAG, ESC} /\ d \notin handlers
+  /\ inj' = <<FLAG, d, UI>> \o body \o <<FLAG>>
+  /\ nOver' = nOver + 1
+  /\ ops' = Append(ops, <<"F", d, body>>)
+  /\ UNCHANGED <<vars, msgs, qid, curid, pend, kind, afterOver, lossy, delivered, nNoise>>
+
 WInject ==
   /\ inj # <<>> /\ ~pend
   /\ Rx(Head(inj))
   /\ inj' = Tail(inj)
-  /\ afterOver' = ((Len(inj) = 1) \/ afterOver)
+  \* only an over-long frame may cost the frame that follows it (its closing flag meets a
+  \* full buffer or the discard state); a foreign frame that fits must cost nothing
+  /\ afterOver' = ((Len(inj) = 1 /\ (rxst = "DISC" \/ Len(rxbuf) >= RxSize)) \/ afterOver)
   /\ Record(0)
   /\ UNCHANGED <<curid, pend, kind, lossy, nNoise, nOver, ops>>
 
@@ -114,6 +128,7 @@ WNext ==
   \/ WPull \/ WFeed \/ WInject
   \/ \E ch \in NoiseOctets : WNoise(ch)
   \/ \E d \in Dlcis, c \in OverFill, n \in RxSize..RxSize+1 : WOverlong(d, [i \in 1..n |-> c])
+  \/ \E d \in {x \in Dlcis : x \notin Handlers}, c \in OverFill, n \in 0..RxSize-1 : WForeign(d, [i \in 1..n |-> c])
 
 WSpec == WInit /\ [][WNext]_wvars
 
